@@ -244,13 +244,23 @@ def _kernel_literals():
             toks = rustlex.tokenize(body)
         except Exception:
             toks = []
-        for t in toks:
-            if t.kind == "num":
-                m = _re.match(r"^(0x[0-9a-fA-F]+|\d+)(usize|u64|u32|i32|i64|isize)?$", t.text.replace("_", ""))
-                if m:
-                    v = int(m.group(1), 0)
-                    if 16 <= v <= 100000:
-                        vals.add(v)
+        def num(t):
+            if t.kind != "num":
+                return None
+            m = _re.match(r"^(0x[0-9a-fA-F]+|\d+)(usize|u64|u32|i32|i64|isize)?$", t.text.replace("_", ""))
+            return int(m.group(1), 0) if m else None
+        for j, t in enumerate(toks):
+            v = num(t)
+            if v is None:
+                continue
+            cands = [v]
+            # `a << k` and `a * b` of two literals (a threshold written as 1 << 12 or 64 * 64)
+            if j + 2 < len(toks) and toks[j + 1].text in ("<<", "*") and num(toks[j + 2]) is not None:
+                w2 = num(toks[j + 2])
+                cands.append(v << w2 if toks[j + 1].text == "<<" and w2 < 32 else v * w2)
+            for c in cands:
+                if 16 <= c <= 100000:
+                    vals.add(c)
         by_file[base] = sorted(vals)[:4]
     _LITS = (by_file, fn_file)
     return _LITS
